@@ -649,10 +649,14 @@ def _dictionary(ctx: Ctx, model, mod, avp):
     ctx.inst(cons)
     gn = cfg_of(nw)
     atn = Atomizer(model, mod, avp)
+    mparam = "is_mandatory"
+    edef = [n for n in gn.nodes if n.kind == "stmt" and isinstance(n.ast, ast.Assign)
+            and isinstance(n.ast.value, ast.Call) and A.call_name(n.ast.value) == "get_avp_dictionary_entry"]
+    ev = A.dotted(edef[0].ast.targets[0]) if edef else "entry"
     st = [n for n in gn.nodes if n.kind == "stmt" and isinstance(n.ast, ast.Assign)
-          and any(A.dotted(t) == "is_mandatory" for t in n.ast.targets)]
-    okm = st and ("is_mandatory", "is", None, True) in must_facts(gn, atn, st[0]) and \
-        ast.unparse(st[0].ast.value).replace("'", '"') in ('entry.get("mandatory")', 'entry["mandatory"]')
+          and any(A.dotted(t) == mparam for t in n.ast.targets)]
+    okm = st and (mparam, "is", None, True) in must_facts(gn, atn, st[0]) and \
+        ast.unparse(st[0].ast.value).replace("'", '"') in (f'{ev}.get("mandatory")', f'{ev}["mandatory"]')
     apply = [n for n in gn.nodes if n.kind == "stmt" and any(A.dotted(t).endswith(".is_mandatory") for t in n.stores())]
     if not okm or not apply or A.dotted(apply[0].ast.value) != "is_mandatory":
         ctx.fail(cons, nw.loc(), "Avp.new does not default the M flag to the dictionary entry's "
